@@ -280,7 +280,11 @@ def check_field(out, interp, cls, row, getter, setter, nbytes, pos, fb):
             post, _ = interp.run(setter, nbytes, {p["decl"]: _param_bv(p, w_inrange=w)})
             _, ret = interp.run(getter, nbytes, {}, storage=post)
             exp = [P(pname, j) if j < w else C0 for j in range(ret.w)]
-            ok = list(ret.bits) == exp and all(post[M[j]] == P(pname, j) for j in range(w))
+            okset = all(post[M[j]] == P(pname, j) for j in range(w))
+            out.append(Ob("position", cls, "%s::set%s[open]" % (cls, stem), sloc, okset,
+                          "set%s stores every value, named or not, in the field unchanged" % stem if okset else
+                          "set%s does not store every value unchanged: values the API does not name reach the wire as something else" % stem))
+            ok = list(ret.bits) == exp and okset
             out.append(Ob("readback", cls, "%s::%s[open]" % (cls, stem), sloc, ok,
                           "get%s(set%s(v)) == v for every value of the %d-bit field, named or not" % (stem, stem, w) if ok else
                           "get%s after set%s(v) is not v for every value of the %d-bit field: values the API does not name do not survive" % (stem, stem, w)))
